@@ -226,6 +226,13 @@ func (c *Ctx) analyseOption(fn *ssa.Function) *optInfo {
 			}
 		}
 	})
+	// combinator spelling: return wrap(func(t *T) { t.Field = v }) where wrap builds the closure that asserts the type,
+	// ignores everything else, runs the setter on the asserted value and reports success
+	var setter *ssa.Function
+	var setterCall ssa.Instruction
+	if clos == nil {
+		clos, setter, setterCall = c.optionCombinator(fn)
+	}
 	if clos == nil || len(clos.Params) != 1 {
 		oi.Problems = append(oi.Problems, "O2: cannot find the option closure returned by "+fn.Name())
 		return oi
@@ -264,12 +271,24 @@ func (c *Ctx) analyseOption(fn *ssa.Function) *optInfo {
 		}
 	})
 	sort.Strings(oi.Targets)
+	// where the stores are looked for: the closure itself, or the setter it runs on the asserted value
+	body := clos
+	if setter != nil {
+		body = setter
+		if sc, ok := setterCall.(*ssa.Call); ok && len(sc.Call.Args) == 1 {
+			if t, ok := asserted[sc.Call.Args[0]]; ok && len(setter.Params) == 1 {
+				asserted[setter.Params[0]] = t
+			} else {
+				oi.Problems = append(oi.Problems, "O2: the setter is not run on the asserted option target")
+			}
+		}
+	}
 	if len(asserted) == 0 {
 		oi.Problems = append(oi.Problems, "O2: option closure never type-asserts its argument")
 	}
 	// stores
 	var storeInstrs []ssa.Instruction
-	allInstrs(clos, func(in ssa.Instruction) {
+	allInstrs(body, func(in ssa.Instruction) {
 		st, ok := in.(*ssa.Store)
 		if !ok {
 			return
@@ -298,7 +317,7 @@ func (c *Ctx) analyseOption(fn *ssa.Function) *optInfo {
 		}
 	})
 	// reads of target fields (order independence)
-	allInstrs(clos, func(in ssa.Instruction) {
+	allInstrs(body, func(in ssa.Instruction) {
 		if u, ok := in.(*ssa.UnOp); ok && u.Op == token.MUL {
 			if fa, ok := u.X.(*ssa.FieldAddr); ok {
 				if _, ok := asserted[fa.X]; ok {
@@ -348,6 +367,16 @@ func (c *Ctx) analyseOption(fn *ssa.Function) *optInfo {
 			if dominatesInstr(s2, s1) {
 				continue // F2 already stored before F1 on this path
 			}
+			if setter != nil {
+				// a setter has no result: every return is a success path
+				rr := reachFrom(body, s1, isF2, nil)
+				for in := range rr.visited {
+					if isReturn(in) {
+						oi.Problems = append(oi.Problems, fmt.Sprintf("O1: a success path stores %s but not %s (%s): for that field an earlier option's value survives, the later option does not win", oi.storeName(s1), oi.storeName(s2), c.Pos(in.Pos())))
+					}
+				}
+				continue
+			}
 			rr := reachFrom(clos, s1, isF2, nil)
 			for in := range rr.visited {
 				ret, ok := in.(*ssa.Return)
@@ -370,6 +399,16 @@ func (c *Ctx) analyseOption(fn *ssa.Function) *optInfo {
 				}
 			}
 		}
+	}
+	if setter != nil {
+		// the setter stores on each of its paths; in the wrapping closure "the store" is the setter's call
+		rs := reachFrom(setter, nil, isStore, nil)
+		for in := range rs.visited {
+			if isReturn(in) {
+				oi.Problems = append(oi.Problems, fmt.Sprintf("O1: a path of the setter returns without storing the setting (%s)", c.Pos(in.Pos())))
+			}
+		}
+		storeInstrs = []ssa.Instruction{setterCall}
 	}
 	noStore := reachFrom(clos, nil, isStore, nil) // instructions reachable from entry without passing a target store
 	allInstrs(clos, func(in ssa.Instruction) {
@@ -404,6 +443,82 @@ func (c *Ctx) analyseOption(fn *ssa.Function) *optInfo {
 		}
 	})
 	return oi
+}
+
+// optionCombinator: fn returns wrap(setter) where wrap (same package) returns a closure that runs its function
+// parameter; returns that closure, the setter literal and the call that runs it.
+func (c *Ctx) optionCombinator(fn *ssa.Function) (*ssa.Function, *ssa.Function, ssa.Instruction) {
+	var wrapCall *ssa.Call
+	allInstrs(fn, func(in ssa.Instruction) {
+		if ret, ok := in.(*ssa.Return); ok && len(ret.Results) == 1 {
+			v := ret.Results[0]
+			if ct, ok := v.(*ssa.ChangeType); ok {
+				v = ct.X
+			}
+			if call, ok := v.(*ssa.Call); ok {
+				wrapCall = call
+			}
+		}
+	})
+	if wrapCall == nil {
+		return nil, nil, nil
+	}
+	wrap := wrapCall.Call.StaticCallee()
+	if wrap == nil || wrap.Pkg != fn.Pkg || len(wrap.Blocks) == 0 || len(wrapCall.Call.Args) != 1 || len(wrap.Params) != 1 {
+		return nil, nil, nil
+	}
+	mc, ok := wrapCall.Call.Args[0].(*ssa.MakeClosure)
+	if !ok {
+		return nil, nil, nil
+	}
+	setter, _ := mc.Fn.(*ssa.Function)
+	// the closure wrap returns
+	var clos *ssa.Function
+	allInstrs(wrap, func(in ssa.Instruction) {
+		if ret, ok := in.(*ssa.Return); ok && len(ret.Results) == 1 {
+			v := ret.Results[0]
+			if ct, ok := v.(*ssa.ChangeType); ok {
+				v = ct.X
+			}
+			if m, ok := v.(*ssa.MakeClosure); ok {
+				clos, _ = m.Fn.(*ssa.Function)
+			}
+		}
+	})
+	if clos == nil || setter == nil {
+		return nil, nil, nil
+	}
+	// the call of the captured function parameter
+	var run ssa.Instruction
+	n := 0
+	for _, ci := range callInstrs(clos) {
+		v := ci.Common().Value
+		if u, ok := v.(*ssa.UnOp); ok && u.Op == token.MUL {
+			v = u.X
+		}
+		fv, ok := v.(*ssa.FreeVar)
+		if !ok {
+			continue
+		}
+		b := freeVarBinding(fv)
+		if b == ssa.Value(wrap.Params[0]) {
+			run = ci
+			n++
+			continue
+		}
+		if a, ok := b.(*ssa.Alloc); ok {
+			for _, ref := range *a.Referrers() {
+				if st, ok := ref.(*ssa.Store); ok && st.Val == ssa.Value(wrap.Params[0]) {
+					run = ci
+					n++
+				}
+			}
+		}
+	}
+	if n != 1 {
+		return nil, nil, nil
+	}
+	return clos, setter, run
 }
 
 func (oi *optInfo) storeName(in ssa.Instruction) string {
